@@ -187,8 +187,8 @@ func TestBuiltinVariables(t *testing.T) {
 layout(local_size_x = 2, local_size_y = 3, local_size_z = 1) in;
 layout(std430, binding = 0) buffer O { uint o[]; };
 void main() {
-  uint flat = gl_GlobalInvocationID.y * (gl_NumWorkGroups.x * gl_WorkGroupSize.x) + gl_GlobalInvocationID.x;
-  o[flat] = gl_WorkGroupID.x * 100000u + gl_WorkGroupID.y * 10000u + gl_LocalInvocationID.x * 1000u + gl_LocalInvocationID.y * 100u + gl_LocalInvocationIndex * 10u + gl_NumWorkGroups.y;
+  uint flatIdx = gl_GlobalInvocationID.y * (gl_NumWorkGroups.x * gl_WorkGroupSize.x) + gl_GlobalInvocationID.x;
+  o[flatIdx] = gl_WorkGroupID.x * 100000u + gl_WorkGroupID.y * 10000u + gl_LocalInvocationID.x * 1000u + gl_LocalInvocationID.y * 100u + gl_LocalInvocationIndex * 10u + gl_NumWorkGroups.y;
 }`
 	p := mustParse(t, src)
 	if p.LocalSize() != [3]uint32{2, 3, 1} {
